@@ -296,6 +296,11 @@ pub fn kinds_entries(loc: &str, ns: &str) -> Vec<(String, Val)> {
             ("lit".into(), st(&t(&format!("{pre}lit")))),
             ("num".into(), Val::UInt(if loc == "en" { 7 } else { 9 })),
             ("flag".into(), Val::Bool(loc == "en")),
+            // float literals whose shortest, Debug and Display spellings differ; a negative integer
+            ("fint".into(), Val::Float(if loc == "en" { "20.0" } else { "3.0" }.into())),
+            ("fsmall".into(), Val::Float(if loc == "en" { "0.000001" } else { "0.5" }.into())),
+            ("fbig".into(), Val::Float(if loc == "en" { "2e20" } else { "1e16" }.into())),
+            ("ineg".into(), Val::Int(if loc == "en" { -3 } else { -40 })),
             ("interp".into(), s(vec![text(&t(&format!("{pre}interp"))), var("x"), text("|"), var_ws("y", 1, 1)])),
             ("compo".into(), s(vec![comp("b", vec![text(&t(&format!("{pre}compo"))), var("x")]), comp("i", vec![])])),
             (
@@ -1306,10 +1311,23 @@ fn c04(tier: Tier) -> i32 {
 
 fn c05(tier: Tier) -> i32 {
     let rep = Reporter::new("C05", "L3", tier);
-    let locales: Vec<&str> = tier.pick(vec!["en", "ru", "ar"], vec!["en", "fr", "ru", "ar", "pl", "ja", "cy", "he", "lt", "ga"]);
+    // variants of one language whose CLDR rules differ (pt: one for 0 and 1; pt-PT: one for 1 only) are rendered
+    // in one process, in both orders (second and third probe): what one locale does must not leak into the other
+    let main_locales: Vec<&str> = tier.pick(vec!["en", "ru", "ar", "pt", "pt-PT"], vec!["en", "fr", "ru", "ar", "pl", "ja", "cy", "he", "lt", "ga", "pt", "pt-PT", "en-GB", "fr-CA", "es", "es-419"]);
     let five = [Form::Zero, Form::One, Form::Two, Form::Few, Form::Many];
-    let masks: Vec<u32> = tier.pick(vec![1, 2, 5, 10, 21, 31], (1..32).collect());
-    let mut p = Project::new(Config::simple("en", &locales));
+    let all_masks: Vec<u32> = tier.pick(vec![1, 2, 5, 10, 21, 31], (1..32).collect());
+    let variants: Vec<(String, Vec<&str>, Vec<u32>)> = vec![
+        (format!("c05_{}", tier.name()), main_locales.clone(), all_masks.clone()),
+        (format!("c05_{}_ptpt_first", tier.name()), vec!["pt-PT", "pt", "en"], vec![2, 31]),
+        (format!("c05_{}_pt_first", tier.name()), vec!["pt", "pt-PT", "en"], vec![2, 31]),
+    ];
+    let mut cases = vec![];
+    let mut n = 0;
+    let mut nontriv = 0;
+    for (case_name, locales, masks) in &variants {
+    let locales = locales.clone();
+    let masks = masks.clone();
+    let mut p = Project::new(Config::simple(locales[0], &locales));
     for l in &locales {
         let mut e = vec![];
         for &mask in &masks {
@@ -1326,7 +1344,7 @@ fn c05(tier: Tier) -> i32 {
         p.set_file(None, l, e);
     }
     let m = Model::new(&p);
-    let mut c = Case::new(&format!("c05_{}", tier.name()), p.clone());
+    let mut c = Case::new(case_name, p.clone());
     let counts: Vec<Num> = (0..=200).map(Num::I).collect();
     for l in &locales {
         for &mask in &masks {
@@ -1374,12 +1392,16 @@ fn c05(tier: Tier) -> i32 {
             c.add_count_loop("0u64..=30", "n", &format!("html(td!({}, {base}, count = move || n))", locale_variant(l)), &format!("plural view {base} @{l}"), exp);
         }
     }
-    let n = c.expected.len();
-    execute(&rep, "C05", vec![c]);
-    rep.nontriv((masks.len() * 2 * locales.len()) as u64);
+    n += c.expected.len();
+    nontriv += masks.len() * 2 * locales.len();
+    cases.push(c);
+    }
+    execute(&rep, "C05", cases);
+    rep.nontriv(nontriv as u64);
+    let (locales, masks) = (main_locales, all_masks);
     rep.sample(json!({"probe_stmt": "for n in 0u64..=200 { p(base + n as usize, td_string!(Locale::ru, p21c, count = n).to_string()); }", "records": n}));
     let mut cov = serde_json::Map::new();
-    cov.insert("rule".into(), json!(format!("locales {locales:?}; plural keys for form subsets {masks:?} (+ other), cardinal and ordinal; the generated `match category_for(count)` is executed for counts 0..=200 through td_string! (all), td! -> html (full-form keys, 0..=30), and td_plural!/td_plural_ordinal! (the category itself) and compared with ICU4X category_for called by the harness for the locale being rendered")));
+    cov.insert("rule".into(), json!(format!("locales {locales:?}; plural keys for form subsets {masks:?} (+ other), cardinal and ordinal; the generated `match category_for(count)` is executed for counts 0..=200 through td_string! (all), td! -> html (full-form keys, 0..=30), and td_plural!/td_plural_ordinal! (the category itself) and compared with ICU4X category_for called by the harness for the locale being rendered; two further probes render pt and pt-PT (same language, different CLDR rules at 0) in one process in either order")));
     cov.insert("exhaustive".into(), json!(tier == Tier::Thorough));
     rep.finish(cov, &["ICU4X compiled CLDR data is the trusted base"])
 }
